@@ -380,6 +380,11 @@ pub fn run_ref(cfg: &TokCfg, input: &str) -> RefOut {
 }
 
 pub fn ref_ctl_key(cfg: &TokCfg, input: &str) -> String {
+    ref_state(cfg, input).0
+}
+
+/// (control key, last start tag name) of the reference after `input`
+pub fn ref_state(cfg: &TokCfg, input: &str) -> (String, Option<String>) {
     let s = if cfg.discard_bom { input.strip_prefix('\u{feff}').unwrap_or(input) } else { input };
     let rc = rtok::Cfg {
         start: start_state(cfg.start).1,
@@ -388,10 +393,11 @@ pub fn ref_ctl_key(cfg: &TokCfg, input: &str) -> String {
         switch: policy,
         _m: std::marker::PhantomData,
     };
+    let r = rtok::RTok::run_partial(rc, s);
     // the reference pre-processes its input stream (CR LF -> LF); a trailing CR is the one piece of
     // pre-processor state that is not visible in the tokenizer state proper, and it must be part of the
     // product key: otherwise "\r" and "\rx" merge whenever the implementation state happens to coincide
-    format!("{}|cr={}", rtok::RTok::run_partial(rc, s).ctl_key(), s.ends_with('\r'))
+    (format!("{}|cr={}", r.ctl_key(), s.ends_with('\r')), r.last_start_tag.clone())
 }
 
 /// Compare a real run (with end) against the reference. Returns (kind, message).
